@@ -2,10 +2,11 @@
    ExtrOcamlBasic only: bool, option, unit, list, prod, sumbool, sumor map to
    their OCaml counterparts; N, Z, positive and nat stay the extracted
    inductive types (no OCaml int). *)
-From LLTD Require Import Sys Spec SpecClassify ClassifyProofs.
+From LLTD Require Import Sys Spec SpecClassify ClassifyProofs SpecTx.
 Require Import ExtrOcamlBasic.
 Extraction "model.ml" run_op sys0 world0 default_cfg default_g cfg_of aset_of owned_bytes owned_count
   mk_rxbuf linux_getters reg_find
   session_expect mapping_expect ni_expect timeout_of mapping_timeouts
   d_add d_remove d_set_complete d_tick d_all_complete d_has
-  classify_spec classify_constrained known_of mac_bytes own.
+  classify_spec classify_constrained known_of mac_bytes own
+  wf_tx hello_fields decode_attrs attrs_of mtu_or_default.
